@@ -304,9 +304,9 @@ def _eps_case(n, tier):
         ctx.ensure("cached-array-shared-and-unchanged", np.array_equal(np.asarray(e1.array), np.asarray(e2.array)))
 
 
-for _n in (1, 2, 3, 4, 5):
+for _n in (1, 2, 3, 4, 5, 6):
     _eps_case(_n, "quick")
-_eps_case(6, "thorough")
+_eps_case(7, "thorough")
 
 
 def _delta_spec(n, p, lower, upper):
